@@ -1063,3 +1063,70 @@ func runCopyArgsDeep(c *Ctx) {
 		c.Check(okAll, "copyArgs: "+f.name+" copied by append", pos, "slot."+f.name+" = append(slot."+f.name+"[:0], ...)", "a destination slot's "+f.name+" is assigned something else than append(slot."+f.name+"[:0], bytes...): the destination shares (or keeps) a buffer instead of owning a copy")
 	}
 }
+
+// ---------------------------------------------------------------------------------------------------------------
+// C13.14  ModifySocket records the protocol it installs
+
+func init() {
+	register(&Rule{ID: "C13.14", Prop: "C13", Min: 2,
+		Text: "the session remembers the protocol a dial hook installed: in ModifySocket the protocol list handed to socket.Reset is a load of session.protoFuncs, and the hook's new ProtoFunc is stored into that field (append) - the websocket client's redial hook re-installs GetProtoFunc(), so a protocol that was installed but not recorded is replaced by the creation-time one after a redial and every later call hangs",
+		Run: runC13_14})
+	register(&Rule{ID: "C19.10", Prop: "C19", Min: 3,
+		Text: "a backend failure is Bad Gateway on that call only: the forwarding session's writers can start a redial from both PassiveClosed and RedialFailed (same obligations as C13.9) - otherwise one outage longer than a round of attempts leaves the proxy answering 502 for ever although the backend is back",
+		Run:  runC13_9})
+	register(&Rule{ID: "C19.9", Prop: "C19", Min: 1,
+		Text: "request metadata reaches the backend unchanged: the query parser overwrites both fields of a recycled slot for every pair it reports (same obligations as C20.6) - the proxy appends X-Real-IP behind the caller's pairs, so a valueless key that was last is followed by '&' on the forwarded hop and would otherwise pick up a stale value there",
+		Run:  runC20_6})
+}
+
+func runC13_14(c *Ctx) {
+	p := c.P
+	fn := p.Fn(Root, "session", "ModifySocket")
+	sessN, pfIdx := p.FieldIndex(Root, "session", "protoFuncs")
+	reset := p.MethodObj(Root+"/socket", "Socket", "Reset")
+	calls := CallsTo(fn, reset)
+	if len(calls) != 1 {
+		c.Undec("ModifySocket installs the recorded protocol", p.Pos(fn.Pos()), fmt.Sprintf("expected one socket.Reset in ModifySocket, found %d", len(calls)))
+		return
+	}
+	args := CallArgs(calls[0])
+	va := args[len(args)-1]
+	c.fact("value-identity")
+	c.Check(isFieldLoad(va, sessN, pfIdx), "ModifySocket installs the recorded protocol", p.InstrPos(calls[0]), "socket.Reset(conn, s.protoFuncs...)",
+		"ModifySocket hands socket.Reset a protocol list that is not the session's recorded one (s.protoFuncs): GetProtoFunc() then reports another protocol than the one in use - the websocket redial hook re-installs it, the bare sub-protocol reads the live connection to EOF and every call after the reconnection hangs")
+	// the hook's new ProtoFunc is recorded
+	recorded := false
+	Instrs(fn, func(i ssa.Instruction) {
+		st, ok := i.(*ssa.Store)
+		if !ok || !isFieldAddr(st.Addr, sessN, pfIdx) {
+			return
+		}
+		call, isCall := st.Val.(*ssa.Call)
+		if !isCall {
+			return
+		}
+		if b, isB := call.Call.Value.(*ssa.Builtin); !isB || b.Name() != "append" {
+			return
+		}
+		// the appended element is result #1 of the hook
+		if sl, isSl := call.Call.Args[len(call.Call.Args)-1].(*ssa.Slice); isSl {
+			if al, isAl := sl.X.(*ssa.Alloc); isAl && al.Referrers() != nil {
+				for _, r := range *al.Referrers() {
+					ia, isIA := r.(*ssa.IndexAddr)
+					if !isIA || ia.Referrers() == nil {
+						continue
+					}
+					for _, rr := range *ia.Referrers() {
+						if s2, isS2 := rr.(*ssa.Store); isS2 {
+							if ex, isEx := s2.Val.(*ssa.Extract); isEx && ex.Index == 1 {
+								recorded = true
+							}
+						}
+					}
+				}
+			}
+		}
+	})
+	c.Check(recorded, "ModifySocket records the new protocol", p.Pos(fn.Pos()), "s.protoFuncs = append(s.protoFuncs[:0], newProtoFunc)",
+		"ModifySocket never stores the hook's new ProtoFunc into s.protoFuncs: GetProtoFunc() keeps reporting the creation-time protocol")
+}
